@@ -154,7 +154,7 @@ static ld ref(const Basic &b, RefEnv &env)
     if (env.syms) {
         for (size_t i = 0; i < env.syms->size(); i++)
             if (eq(b, *(*env.syms)[i]))
-                return (ld)(*env.vals)[i];
+                return pert(env, (ld)(*env.vals)[i]); // conditioning with respect to the inputs counts too
     }
     if (is_a<Integer>(b)) {
         ld v = ld_of_mpz(down_cast<const Integer &>(b).as_integer_class());
@@ -165,7 +165,7 @@ static ld ref(const Basic &b, RefEnv &env)
         return pert(env, ld_of_mpz(get_num(q)) / ld_of_mpz(get_den(q)));
     }
     if (is_a<RealDouble>(b))
-        return (ld)down_cast<const RealDouble &>(b).i;
+        return pert(env, (ld)down_cast<const RealDouble &>(b).i);
     if (is_a<Infty>(b)) {
         const Infty &i = down_cast<const Infty &>(b);
         if (i.is_positive_infinity())
@@ -223,6 +223,8 @@ static ld ref(const Basic &b, RefEnv &env)
         ld x = ref(*c.get_expr(), env), lo = ref(*iv.get_start(), env), hi = ref(*iv.get_end(), env);
         if (std::isnan(x))
             return 0.0L;
+        if (fabsl(x - lo) <= 1.0e-12L * std::max(fabsl(x), fabsl(lo)) || fabsl(x - hi) <= 1.0e-12L * std::max(fabsl(x), fabsl(hi)))
+            env.bad = true; // at an end point of the interval
         bool l = iv.get_left_open() ? (lo < x) : (lo <= x);
         bool r = iv.get_right_open() ? (x < hi) : (x <= hi);
         return (l && r) ? 1.0L : 0.0L;
@@ -308,9 +310,16 @@ static ld ref(const Basic &b, RefEnv &env)
         case SYMENGINE_ERFC: r = erfcl(x); break;
         case SYMENGINE_ATAN2: r = atan2l(a[0], a[1]); break;
         case SYMENGINE_SIGN: return x == 0 ? 0.0L : (x < 0 ? -1.0L : 1.0L);
-        case SYMENGINE_FLOOR: return floorl(x);
-        case SYMENGINE_CEILING: return ceill(x);
-        case SYMENGINE_TRUNCATE: return truncl(x);
+        case SYMENGINE_FLOOR:
+        case SYMENGINE_CEILING:
+        case SYMENGINE_TRUNCATE: {
+            // discontinuous at the integers: an argument that is merely close to one is ill-conditioned
+            ld n = roundl(x);
+            if (x != n && fabsl(x - n) < 1.0e-12L * std::max((ld)1.0L, fabsl(x)))
+                env.bad = true;
+            return b.get_type_code() == SYMENGINE_FLOOR ? floorl(x)
+                                                        : (b.get_type_code() == SYMENGINE_CEILING ? ceill(x) : truncl(x));
+        }
         case SYMENGINE_MAX: {
             r = a[0];
             for (ld v : a)
@@ -323,10 +332,20 @@ static ld ref(const Basic &b, RefEnv &env)
                 r = (v < r) ? v : r;
             return r;
         }
-        case SYMENGINE_EQUALITY: return a[0] == a[1] ? 1.0L : 0.0L;
-        case SYMENGINE_UNEQUALITY: return a[0] != a[1] ? 1.0L : 0.0L;
-        case SYMENGINE_LESSTHAN: return a[0] <= a[1] ? 1.0L : 0.0L;
-        case SYMENGINE_STRICTLESSTHAN: return a[0] < a[1] ? 1.0L : 0.0L;
+        case SYMENGINE_EQUALITY:
+        case SYMENGINE_UNEQUALITY:
+        case SYMENGINE_LESSTHAN:
+        case SYMENGINE_STRICTLESSTHAN: {
+            // discontinuous where the two sides are equal: nearly equal sides are ill-conditioned
+            if (fabsl(a[0] - a[1]) <= 1.0e-12L * std::max(fabsl(a[0]), fabsl(a[1])))
+                env.bad = true;
+            switch (b.get_type_code()) {
+                case SYMENGINE_EQUALITY: return a[0] == a[1] ? 1.0L : 0.0L;
+                case SYMENGINE_UNEQUALITY: return a[0] != a[1] ? 1.0L : 0.0L;
+                case SYMENGINE_LESSTHAN: return a[0] <= a[1] ? 1.0L : 0.0L;
+                default: return a[0] < a[1] ? 1.0L : 0.0L;
+            }
+        }
         case SYMENGINE_NOT: return x != 0 ? 0.0L : 1.0L;
         case SYMENGINE_AND: {
             bool t = true;
@@ -668,11 +687,13 @@ static std::string run_history(const std::string &line, int wfd)
                         std::string r2 = call_result(other, inp, &o2);
                         bool same = o2.size() == outs.size();
                         for (size_t i = 0; same && i < outs.size(); i++) {
+                            if (!checked[i])
+                                continue; // singular or ill-conditioned point: NaN handling / rounding may differ
                             if (std::isnan(outs[i]) || std::isnan(o2[i]))
                                 same = std::isnan(outs[i]) && std::isnan(o2[i]);
                             else if (std::isinf(outs[i]) || std::isinf(o2[i]))
                                 same = outs[i] == o2[i];
-                            else if (checked[i])
+                            else
                                 same = fabsl((ld)outs[i] - (ld)o2[i]) <= 2 * tols[i];
                         }
                         if (!same) {
